@@ -76,10 +76,74 @@ def reference(case):
     return has_marker, vs, exposed
 
 
+def eval_asym(case):
+    """Peers whose two directions offer the affected classes differently.  Which lists "the peer offers" then means is not
+    spelled out by the rule, so every fixed reading is accepted - the audited role's own direction, the other direction, or
+    both together - but it has to be ONE reading: the cipher side and the MAC side of the CBC+ETM conjunction, the text and
+    the JSON report, and every peer of the battery must be explained by the same one."""
+    role = case['role']
+    mark = [MS if role == 'server' else MC] if case['marker'] else []
+    fails = []
+    ok = {'own': True, 'other': True, 'union': True}
+    trace = []
+    for sub in case['subs']:
+        kex = ['curve25519-sha256'] + mark
+        if role == 'server':
+            spec = {'banner': 'SSH-2.0-OpenSSH_9.3', 'kex': kex, 'key': ['ssh-ed25519'], 'enc': sub['own_enc'], 'mac': sub['own_mac'], 'enc_c': sub['other_enc'], 'mac_c': sub['other_mac']}
+        else:
+            spec = {'banner': 'SSH-2.0-OpenSSH_9.3', 'kex': kex, 'key': ['ssh-ed25519'], 'enc_c': sub['own_enc'], 'mac_c': sub['own_mac'], 'enc': sub['other_enc'], 'mac': sub['other_mac']}
+        readings = {
+            'own': reference({'role': role, 'kex': kex, 'enc': sub['own_enc'], 'mac': sub['own_mac']}),
+            'other': reference({'role': role, 'kex': kex, 'enc': sub['other_enc'], 'mac': sub['other_mac']}),
+            'union': reference({'role': role, 'kex': kex, 'enc': sub['own_enc'] + [x for x in sub['other_enc'] if x not in sub['own_enc']], 'mac': sub['own_mac'] + [x for x in sub['other_mac'] if x not in sub['own_mac']]}),
+        }
+        for rend in ('json', 'text'):
+            net = fakenet.FakeNet()
+            base = ['-n'] + (['-j'] if rend == 'json' else [])
+            if role == 'server':
+                net.add('h', 22, fakenet.Server(spec))
+                r = drive.run_cli(base + ['--skip-rate-test', 'h'], net)
+            else:
+                net.pending_clients.append(fakenet.Server(spec))
+                r = drive.run_cli(base + ['-c'], net)
+            if r.exc or r.hang or r.code not in (0, 2, 3):
+                fails.append([drive.crash_sig(r) if r.exc else 'no-report', r.brief()])
+                continue
+            if rend == 'json':
+                doc = json.loads(r.out)
+                jr = report.JsonReport(doc)
+                finds, shown = jr.findings(), {'enc': jr.names('enc'), 'mac': jr.names('mac')}
+                notes = [n for n in doc.get('additional_notes', []) if 'strict key exchange' in n]
+            else:
+                tr = report.TextReport(r.out)
+                finds, shown = tr.findings(), {'enc': tr.names('enc'), 'mac': tr.names('mac')}
+                notes = [n for n in tr.nfo if 'strict key exchange' in n]
+            warned = {(cat, name) for cat, name, sev, text in finds if TW in text and 'pseudo-algorithm' not in text}
+            listed = None
+            if len(notes) == 1:
+                m = NOTE_RX.search(notes[0])
+                listed = sorted(m.group(1).split(', ')) if m else None
+            trace.append('%s: shown enc=%r mac=%r warned=%r note=%r' % (rend, shown['enc'], shown['mac'], sorted(warned), listed))
+            for R, (has_marker, vs, exposed) in readings.items():
+                # only a name the report shows can carry a note
+                want = {(cat, x) for x in vs for cat in ('enc', 'mac') if x in shown[cat] and (refmodel.is_etm(x) if cat == 'mac' else not refmodel.is_etm(x))} if exposed else set()
+                want_note = sorted(vs) if (has_marker and vs) else None
+                if warned != want or listed != want_note or len(notes) > 1:
+                    ok[R] = False
+    if not any(ok.values()) and not fails:
+        fails.append(['asymmetric-directions-no-single-reading-explains-the-flags', '%s audit, marker %s: neither the own direction, nor the other direction, nor both together explain the Terrapin flags of this battery: %r -> %s' % (role, 'present' if mark else 'absent', case['subs'], ' | '.join(trace))])
+    return mkres(case, nt=True, classes=['asymmetric-directions', 'role:' + role, 'marker:' + ('own' if mark else 'none'), 'reading:' + '/'.join(R for R in ok if ok[R])], fails=fails)
+
+
 def eval_case(case):
+    if case.get('kind') == 'asym':
+        return eval_asym(case)
     role = case['role']
     has_marker, vs, exposed = reference(case)
     spec = {'banner': 'SSH-2.0-OpenSSH_9.3', 'kex': case['kex'], 'key': ['ssh-ed25519'], 'enc': case['enc'], 'mac': case['mac']}
+    context = case.get('context', 'plain')
+    if context == 'gex2048':
+        spec.update(moduli=[], gex_style='openssh')      # every group-exchange request is answered with the 2048-bit fallback group
     fails = []
     db_enc, db_mac = set(gens.db_names('enc')), set(gens.db_names('mac'))
     for rend in case.get('renderings', ['json', 'text']):
@@ -88,7 +152,7 @@ def eval_case(case):
         base = ['-n'] + (['-j'] if rend == 'json' else [])
         if role == 'server':
             net.add('h', 22, peer)
-            r = drive.run_cli(base + ['--skip-rate-test', 'h'], net)
+            r = drive.run_cli(base + ([] if context == 'rate' else ['--skip-rate-test']) + ['h'], net)
         else:
             net.pending_clients.append(peer)
             r = drive.run_cli(base + ['-c'], net)
@@ -114,7 +178,7 @@ def eval_case(case):
             adds = [(cat, name) for sign, name, cat, action, _ in tr.rec if sign == '+']
         warned = {(cat, name) for cat, name, sev, text in finds if TW in text and 'pseudo-algorithm' not in text}
         sev_bad = [(cat, name, sev) for cat, name, sev, text in finds if TW in text and 'pseudo-algorithm' not in text and sev != 'warn']
-        want = {('enc' if x in case['enc'] and (refmodel.is_chacha(x) or refmodel.is_cbc(x)) else 'mac', x) for x in vs} if exposed else set()
+        want = {('enc' if (refmodel.is_chacha(x) or refmodel.is_cbc(x)) and not refmodel.is_etm(x) else 'mac', x) for x in vs} if exposed else set()
         missing, extra = want - warned, warned - want
         if extra:
             fails.append(['terrapin-warning-on-unaffected-algorithm', '%s %s: %r warned, rule says %r (case %r)' % (rend, role, sorted(extra), sorted(want), case)])
@@ -146,7 +210,7 @@ def eval_case(case):
         if badd:
             fails.append(['terrapin-class-algorithm-recommended-for-addition', '%s %s: %r' % (rend, role, badd)])
     nt = exposed or (has_marker and bool(vs))
-    cl = ['role:' + role, 'marker:' + case['marker'], 'exposed' if exposed else ('advisory' if has_marker and vs else 'clean'), 'unknown-names' if case['unknown'] else 'db-names']
+    cl = ['role:' + role, 'marker:' + case['marker'], 'exposed' if exposed else ('advisory' if has_marker and vs else 'clean'), 'unknown-names' if case['unknown'] else 'db-names', 'context:' + context]
     return mkres(case, nt=nt, classes=cl, fails=fails)
 
 
@@ -177,6 +241,38 @@ def run(ctx):
                     cases.append(instantiate(s, rot, unknown=True, neigh=rot))
                 for rot in range(6):
                     cases.append(instantiate(s, rot, unknown='mix', neigh=rot % 3))
+    # contexts in which other machinery produces notes / suppressions next to the Terrapin ones (server audits):
+    # the connection-rate check runs and reports; a group exchange measured at 2048 bits on OpenSSH (fallback note + suppression)
+    step = 3 if ctx.quick else 1
+    for i, s in enumerate(sh):
+        if s[0] != 'server' or i % step != ctx.seed % step:
+            continue
+        for context, extra in (('rate', 'diffie-hellman-group14-sha256'), ('gex2048', 'diffie-hellman-group-exchange-sha256')):
+            c = instantiate(s, rot0 + i, neigh=i % 5)
+            c['kex'] = c['kex'][:1] + [extra] + c['kex'][1:] if i % 2 else c['kex'] + [extra]
+            c['context'] = context
+            cases.append(c)
+    # asymmetric directions: batteries of peers whose two directions offer the affected classes differently
+    import random
+    rng = random.Random(ctx.seed * 7919 + 4)
+    def side():
+        enc = [C['enc_other'][rng.randrange(len(C['enc_other']))]]
+        mac = [C['mac_other'][rng.randrange(len(C['mac_other']))]]
+        if rng.random() < 0.5:
+            enc.insert(rng.randrange(2), C['cbc'][rng.randrange(len(C['cbc']))])
+        if rng.random() < 0.5:
+            mac.insert(rng.randrange(2), C['etm'][rng.randrange(len(C['etm']))])
+        if rng.random() < 0.25:
+            enc.insert(rng.randrange(len(enc) + 1), C['chacha'][0])
+        return enc, mac
+    for i in range(40 if ctx.quick else 600):
+        subs = []
+        while len(subs) < 6:
+            oe, om = side()
+            te, tm = side()
+            if (oe, om) != (te, tm):
+                subs.append({'own_enc': oe, 'own_mac': om, 'other_enc': te, 'other_mac': tm})
+        cases.append({'kind': 'asym', 'role': ('server', 'client')[i % 2], 'marker': i % 4 >= 2, 'subs': subs})
     # every CBC cipher and every ETM MAC of the table at least once in an exposed and in an advisory configuration
     for i, c in enumerate(C['cbc']):
         e = C['etm'][i % len(C['etm'])]
@@ -193,4 +289,4 @@ def run(ctx):
     ctx.exhaustive = True
     ctx.note(shapes=len(sh), class_sizes={k: len(v) for k, v in C.items()}, explanation='exhaustive flag: all 576 skeleton shapes are instantiated at least once (quick: one rotation each; thorough: every class member x neighbourhoods)')
     return ctx.finish('exploration', 'every combination of role x marker(own/other/both/none) x ChaCha subset x number of CBC ciphers (0-2) x number of ETM MACs (0-2) x other algorithms present, instantiated with database names of each class in rotation with varying neighbours and order, plus unknown names of the same shapes (alone, and placed before / between / after names the table knows); each case audited in text and JSON; non-trivial = exposed, or marker present with a non-empty affected set',
-                      assumptions=['class membership by name shape: cipher begins chacha20-poly1305; cipher has a cbc mode component; MAC ends -etm@openssh.com', 'symmetric lists only (with asymmetric lists "offers" is ambiguous)'])
+                      assumptions=['class membership by name shape: cipher begins chacha20-poly1305; cipher has a cbc mode component; MAC ends -etm@openssh.com', 'with asymmetric directions any single reading of "offers" (own direction, other direction, both) is accepted, but the same one for ciphers and MACs, text and JSON, and all six peers of a battery'])
